@@ -454,3 +454,33 @@ PLAN["C19"]["jobs"] = PLAN["C19"]["jobs"] + only(MPI_JOBS, lambda j: j["cfg"]["o
 PLAN["C20"]["jobs"] = PLAN["C20"]["jobs"] + only(MPI_JOBS, lambda j: j["cfg"]["ob"] == 2)
 PLAN["C16"]["jobs"] = PLAN["C16"]["jobs"] + only(MPI_JOBS, lambda j: j["cfg"]["ob"] == 0 and j["cfg"]["alg"] == 0 and "quick" in j["tiers"])
 PLAN["C16"]["level"] = "proof"
+
+HARNESS_LIBS["h_crash"] = ["-ldl"]
+CRASH_EXPECT = ["crash.before_open_trunc", "crash.before_write", "crash.inside_a_write", "crash.before_close", "file.holds_the_last"]
+CRASH_JOBS = [
+    S("h_crash", dict(alg=0, n=2, cp=0), CRASH_EXPECT),
+    S("h_crash", dict(alg=1, n=2, cp=0), CRASH_EXPECT),
+    S("h_crash", dict(alg=2, n=2, cp=0), CRASH_EXPECT),
+    S("h_crash", dict(alg=0, n=2, cp=0, stale=1), CRASH_EXPECT),
+    S("h_crash", dict(alg=0, n=2, cp=0, dist=1, fk=1, name=6), CRASH_EXPECT),
+    S("h_crash", dict(alg=1, n=2, cp=0, dist=1, fk=1, name=6, stale=1), CRASH_EXPECT),
+    S("h_crash", dict(alg=0, n=3, cp=1, stale=1), CRASH_EXPECT, tiers=T),
+    S("h_crash", dict(alg=1, n=3, cp=0, user=1), CRASH_EXPECT, tiers=T),
+    S("h_crash", dict(alg=2, n=3, cp=0, user=1, dist=1, fk=1, name=6), CRASH_EXPECT, tiers=T),
+]
+PLAN["C18"] = dict(
+    level="other",
+    explanation="The real callback / serialize / libstdc++ filebuf code runs; the libc calls it makes on the checkpoint files (fopen64, write, writev, fclose, "
+                "rename, remove) are interposed and recorded as events on an in-memory file model with the documented contract (open for writing truncates "
+                "or creates, write stores bytes at the file position, rename replaces atomically). Every crash point - before each event, and after a "
+                "symbolic number p of bytes of each write - is an obligation decided by z3 (file absent, or token-wise identical to the previous or the new "
+                "checkpoint text). Counterexamples are replayed by really killing a forked child at that call on a real file. Level 'other' because the "
+                "file system contract (atomic rename, no reordering by the kernel / disk cache) is assumed, not encoded.",
+    functions=["hep::callback<Checkpoint>::operator() (write modes)", "Checkpoint::serialize", "libstdc++ basic_filebuf (runs concretely)"] + DRIVER_FUNCS[:8],
+    bounds={"quick": "2 iterations, three integrators, checkpoint text from ~40 bytes to > 40 kB (several write calls: longer than the stream buffer), with and "
+                     "without a stale temporary file left by an earlier kill; crash before every libc call and after p bytes of every write, p symbolic",
+            "thorough": "3 iterations"},
+    outside="power loss / kernel write-back ordering (needs fsync: not claimed); more iterations",
+    assumptions=DRIVER_ASSUME + ["file system contract: open('w') truncates or creates, write appends at the position, rename is atomic, a killed process's "
+                                 "completed writes are visible (process kill, not power loss)"],
+    jobs=CRASH_JOBS)
